@@ -204,6 +204,19 @@ def _pos(n: ast.AST):
     return (getattr(n, "lineno", 0), getattr(n, "col_offset", 0))
 
 
+def _straight_line_return(tg: FuncInfo):
+    """The returned expression of a function whose body is straight-line: `pass`, plain assignments to fresh locals
+    (expanded as value ids by the evaluator) and one final `return expr`. None otherwise."""
+    body = [s for s in tg.body_without_docstring() if not isinstance(s, ast.Pass)]
+    if not body or not isinstance(body[-1], ast.Return) or body[-1].value is None:
+        return None
+    params = set(tg.params)
+    for s in body[:-1]:
+        if not (isinstance(s, ast.Assign) and len(s.targets) == 1 and isinstance(s.targets[0], ast.Name) and s.targets[0].id not in params):
+            return None
+    return body[-1].value
+
+
 class Analysis:
     def __init__(self, root: str = None, fixtures: bool = True):
         extra = []
@@ -270,16 +283,16 @@ class Analysis:
             tg = self._inline_target(e.value, e.attr, f, want_property=True)
             if tg is None:
                 return None
-            body = tg.body_without_docstring()
-            if len(body) != 1 or not isinstance(body[0], ast.Return) or body[0].value is None:
+            rv = _straight_line_return(tg)
+            if rv is None:
                 return None
-            return self._inline(sym, tg, {tg.params[0]: base_key}, body[0].value, depth)
+            return self._inline(sym, tg, {tg.params[0]: base_key}, rv, depth)
         if isinstance(e, ast.Call) and isinstance(e.func, ast.Attribute):
             tg = self._inline_target(e.func.value, e.func.attr, f, want_property=False)
             if tg is None or tg.is_static or tg.is_classmethod:
                 return None
-            body = tg.body_without_docstring()
-            if len(body) != 1 or not isinstance(body[0], ast.Return) or body[0].value is None:
+            rv = _straight_line_return(tg)
+            if rv is None:
                 return None
             if e.keywords or any(isinstance(a, ast.Starred) for a in e.args):
                 return None
@@ -294,7 +307,7 @@ class Analysis:
                 if d is None:
                     return None
                 binding[p] = sym.ev(d, None, depth + 1)
-            return self._inline(sym, tg, binding, body[0].value, depth)
+            return self._inline(sym, tg, binding, rv, depth)
         return None
 
     def _inline_target(self, recv: ast.AST, name: str, f: FuncInfo, want_property: bool) -> Optional[FuncInfo]:
